@@ -6,6 +6,7 @@ CONSTANTS Producers = {"p1", "p2"}
           SafeEnv = TRUE
           Locks = TRUE
           RealTime = FALSE
+          Disconnect = TRUE
           NMsgs = 2
           ScriptSet = {"inproc", "inproc2"}
           Script2Set = {"none", "reset"}
